@@ -32,6 +32,9 @@ type VerifC15PoolView struct {
 	Cache            []VerifC15CacheEntry         // sorted by hash; nil when the cache is not a txHeapManager
 	Height           uint64
 	Size, FutureSize int
+	UTXOSize         int
+	MaxReapSize      int
+	AccountQueue     int
 }
 
 func verifC15List(l *clist.CList) types.Txs {
@@ -46,7 +49,8 @@ func verifC15List(l *clist.CList) types.Txs {
 func VerifC15View(mem *Mempool) VerifC15PoolView {
 	v := VerifC15PoolView{Good: verifC15List(mem.goodTxs), Spec: verifC15List(mem.specGoodTxs), UTXO: verifC15List(mem.utxoTxs),
 		Future: map[common.Address]types.Txs{}, FutureCount: mem.futureTxsCount, Height: mem.height,
-		Size: mem.config.Size, FutureSize: mem.config.FutureSize}
+		Size: mem.config.Size, FutureSize: mem.config.FutureSize, UTXOSize: mem.config.UTXOSize, MaxReapSize: mem.config.MaxReapSize,
+		AccountQueue: mem.config.AccountQueue}
 	for a, l := range mem.futureTxs {
 		nonces := make([]uint64, 0, len(l.txs.items))
 		for n := range l.txs.items {
